@@ -59,19 +59,20 @@ Record tstate := tmk {
   tfin : pout;                (* what the body does after its last yield                          *)
   tout : option outcome;
   truns : nat;                (* how many times the body was started                              *)
-  tsubs : list (Z * cbkind);
+  tsubs : list sub;
   tlog : list (Z * outcome);
   tinner : list res           (* results of the inner operations, in execution order             *)
 }.
 
 Definition tinit (ph : list phase) (fin : pout) : tstate := tmk (Some ph) fin None 0 [] [] [].
 
-(* AsyncTask._computed after the outcome was stored: the generator is closed, every current
-   subscriber is called once and sees the stored outcome (FutureBase._computed in the finally
-   block, so this happens whatever close() did).                                                 *)
+(* AsyncTask._computed after the outcome was stored: the generator is closed, every subscriber
+   registered at that moment is called once and sees the stored outcome (FutureBase._computed in
+   the finally block, so this happens whatever close() did); the subscribers may re-enter the
+   subscription list (Futures.notify).                                                           *)
 Definition tcomplete (s : tstate) (o : outcome) : tstate :=
-  tmk None (tfin s) (Some o) (truns s) (tsubs s)
-      (tlog s ++ map (fun sb => (fst sb, o)) (tsubs s)) (tinner s).
+  tmk None (tfin s) (Some o) (truns s) (fst (notify (tsubs s) (tsubs s)))
+      (tlog s ++ map (fun id => (id, o)) (snd (notify (tsubs s) (tsubs s)))) (tinner s).
 
 (* what set_value / set_error on the suspended task returns to its caller: the exception of
    generator.close(), re-raised after the finally block                                          *)
@@ -163,8 +164,9 @@ Fixpoint trun (s : tstate) (ops : list op) : tstate * list res :=
   end.
 
 Definition run_task (ph : list phase) (fin : pout) (ops : list op)
-  : list res * list res * list (Z * outcome) * Z :=
-  let '(s, rs) := trun (tinit ph fin) ops in (rs, tinner s, tlog s, Z.of_nat (truns s)).
+  : list res * list res * list (Z * outcome) * Z * list Z :=
+  let '(s, rs) := trun (tinit ph fin) ops in
+  (rs, tinner s, tlog s, Z.of_nat (truns s), map fst (tsubs s)).
 
 (* single entry point for the correspondence: plain futures (Futures.run_case) or scheduled tasks *)
 Inductive anycase :=
@@ -172,8 +174,8 @@ Inductive anycase :=
 | CTask (ph : list phase) (fin : pout) (ops : list op).
 
 Inductive anyout :=
-| OutFut (r : list res * list (Z * outcome) * Z)
-| OutTask (r : list res * list res * list (Z * outcome) * Z).
+| OutFut (r : list res * list (Z * outcome) * Z * list Z)
+| OutTask (r : list res * list res * list (Z * outcome) * Z * list Z).
 
 Definition run_any (c : anycase) : anyout :=
   match c with
